@@ -47,6 +47,11 @@ RULE_KINDS = {
     # the expression assigned to dataBuffer when it is re-based, evaluated on five (buffer, offset, pending chunks) samples - used when the value is not
     # built by the recognised _concatenate(dataBuffer, offset, _tempDataBuffer) call
     "dowrite/rebase-content/sampled": "bounded",
+    # the helper that merges the unsent tail with the queued writes, evaluated on the grid offset in {0, 1, len-1, len} x (queued chunks / none)
+    "concatenate/order": "bounded",
+    # write / doWrite interpreted on scripted sequences (the OS accepts 0 bytes, a few, all; more data queued in between; buffer above and below
+    # SEND_LIMIT): what was handed to writeSomeData and accepted, in order, must be exactly what was written
+    "stream/": "bounded",
 }
 ASSUMPTIONS = [
     "startWriting/stopWriting/stopReading and writeSomeData do not modify the buffering attributes of the descriptor",
@@ -173,21 +178,115 @@ def _guard_after(g, n, good, bad, after):
     return implied(g, n, good, bad, after=after)
 
 
-_CONCAT_SAMPLES = [(b"abcdef", 2, [b"gh", b"i"]), (b"abc", 0, []), (b"abc", 3, [b"z"]), (b"", 0, [b"q", b"rs"]), (b"xy", 1, [b"", b"w"])]
+# offset in {0, 1, len-1, len} x (pending chunks empty / non-empty), plus empty buffers
+_CONCAT_SAMPLES = [(b"abcdef", 0, [b"gh"]), (b"abcdef", 0, []), (b"abcdef", 1, [b"gh", b"i"]), (b"abcdef", 5, [b"g"]), (b"abcdef", 6, [b"g", b"h"]), (b"abcdef", 6, []),
+                   (b"abcdef", 2, [b"gh", b"i"]), (b"abc", 0, []), (b"abc", 3, [b"z"]), (b"", 0, [b"q", b"rs"]), (b"xy", 1, [b"", b"w"])]
 
 
-def _sampled_concat(expr, kbuf, koff, ktmp):
-    """True / a description of the first wrong value / None (not evaluable) for 'expr == buf[off:] + b"".join(tmp)' on the samples."""
+def _peval_with_helpers(mod, expr, env):
+    """peval; calls of module-level functions that are not reducible to one expression are run in the interpreter on the (already evaluated)
+    argument values and their results entered as facts."""
+    try:
+        return peval(expr, env)
+    except NotConst:
+        pass
+    from sa.props._lib_d import MiniVM, VMError, VMRaise, _NativeRaise
+    funcs = {n.name for n in mod.tree.body if isinstance(n, ast.FunctionDef)}
+    env = dict(env)
+    for c in [x for x in ast.walk(expr) if isinstance(x, ast.Call) and isinstance(x.func, ast.Name) and x.func.id in funcs and not x.keywords]:
+        try:
+            args = [peval(a, env) for a in c.args]
+            vm = MiniVM(mod)
+            val = vm.call(vm.mod.globals_lookup(c.func.id), [list(a) if isinstance(a, list) else a for a in args], {})
+        except (NotConst, VMError, VMRaise, _NativeRaise):
+            raise NotConst("helper not evaluable")
+        env[src(c)] = bytes(val) if isinstance(val, (memoryview, bytearray)) else val
+    return peval(expr, env)
+
+
+def _sampled_concat(expr, kbuf, koff, ktmp, mod=None):
+    """True / a description of the first wrong value / None (not evaluable) for 'expr == buf[off:] + b"".join(tmp)' on the grid."""
     for buf, off, tmp in _CONCAT_SAMPLES:
         try:
-            val = peval(expr, {kbuf: buf, koff: off, ktmp: list(tmp)})
+            env = {kbuf: buf, koff: off, ktmp: list(tmp)}
+            val = _peval_with_helpers(mod, expr, env) if mod is not None else peval(expr, env)
         except NotConst:
             return None
-        if isinstance(val, memoryview):
+        if isinstance(val, (memoryview, bytearray)):
             val = bytes(val)
         if val != buf[off:] + b"".join(tmp):
             return f"for dataBuffer={buf!r} offset={off} _tempDataBuffer={tmp!r} it is {val!r}, not {buf[off:] + b''.join(tmp)!r}"
     return True
+
+
+_STREAM_SCRIPTS = [
+    # (label, SEND_LIMIT, [("w", data) | ("d", bytes accepted)], then drained with full acceptance)
+    ("OS accepts 0 bytes of a fresh buffer, more data queued, then everything", 1 << 17, [("w", b"hello, "), ("d", 0), ("w", b"world"), ("d", 99)]),
+    ("partial sends with data queued in between", 1 << 17, [("w", b"abcdef"), ("d", 2), ("w", b"gh"), ("d", 1), ("w", b"i"), ("d", 3), ("d", 99)]),
+    ("nothing accepted twice in a row", 1 << 17, [("w", b"ab"), ("d", 0), ("d", 0), ("w", b"cd"), ("d", 1), ("d", 99)]),
+    ("unsent tail longer than SEND_LIMIT (no merge), then shorter", 4, [("w", b"0123456789"), ("d", 3), ("w", b"AB"), ("d", 2), ("w", b"C"), ("d", 2), ("d", 99)]),
+    ("writeSequence pieces and an empty write", 1 << 17, [("ws", [b"ab", b"", b"cd"]), ("w", b""), ("d", 1), ("ws", [b"e"]), ("d", 99)]),
+]
+
+
+def _stream(ctx, mod):
+    """Bounded twin of the doWrite buffer rules: FileDescriptor.write / writeSequence / doWrite interpreted on scripted sequences with a stand-in
+    writeSomeData that accepts a scripted number of bytes.  The accepted bytes, in order, must be a prefix of the written bytes after every step and
+    all of them once the buffer has drained."""
+    from sa.props._lib_d import MiniVM, VMError, VMRaise, VMStub, _NativeRaise
+    from sa.source import AnalysisError
+    q = _q("FileDescriptor", "doWrite")
+
+    class _R(VMStub):
+        def addWriter(self, x): pass
+        def removeWriter(self, x): pass
+        def addReader(self, x): pass
+        def removeReader(self, x): pass
+
+    def lazy(obj, offset=0, size=None):
+        return memoryview(obj)[offset:(offset + size) if size is not None else None]
+
+    for label, limit, script in _STREAM_SCRIPTS:
+        c = q + f" | <{label}>"
+        sent, written, state = [], [], {"accept": 0}
+
+        def wsd(vm, o, data):
+            n = min(state["accept"], len(data))
+            sent.append(bytes(data[:n]))
+            return n
+        try:
+            vm = MiniVM(mod, hooks={"writeSomeData": wsd}, overrides={"lazyByteSlice": lazy})
+            o = vm.new(vm.cls("FileDescriptor"), _R())
+            o.attrs["connected"] = 1
+            o.attrs["SEND_LIMIT"] = limit
+            bad = None
+            steps = list(script) + [("d", 1 << 30)] * 6
+            for op, arg in steps:
+                if op == "w":
+                    written.append(arg)
+                    vm.call_method(o, "write", arg)
+                elif op == "ws":
+                    written.extend(arg)
+                    vm.call_method(o, "writeSequence", list(arg))
+                else:
+                    state["accept"] = arg
+                    r = vm.call_method(o, "doWrite")
+                    if r is not None and not isinstance(r, int):
+                        bad = f"doWrite returned {r!r}"
+                        break
+                if not b"".join(written).startswith(b"".join(sent)):
+                    bad = f"after {op} {arg!r}: accepted so far {b''.join(sent)!r} is not a prefix of what was written {b''.join(written)!r}"
+                    break
+            if bad is None and b"".join(sent) != b"".join(written):
+                bad = f"after the buffer drained the OS was given {b''.join(sent)!r}, written was {b''.join(written)!r}"
+        except VMError as e:
+            # the bounded twin cannot run this code: it abstains, the structural buffer rules above decide
+            ctx.note(f"stream/bytes-sent-are-bytes-written: not evaluated for <{label}>: construct outside the interpreter's subset: {e}")
+            continue
+        except (VMRaise, _NativeRaise) as e:
+            bad = f"interpreting the script raises {e!r}"[:200]
+        ctx.check(bad is None, "stream/bytes-sent-are-bytes-written", c,
+                  "the bytes handed to the OS differ from the bytes written (lost, duplicated or reordered): " + (bad or ""))
 
 
 def _presence_by_identity(ctx, mod, inl, classes):
@@ -420,7 +519,7 @@ def _check(ctx):
                 else:
                     ctx.note("dowrite/rebase-content: the new dataBuffer is not built by _concatenate(dataBuffer, offset, _tempDataBuffer); its value is "
                              "decided by dowrite/rebase-content/sampled")
-                val = _sampled_concat(expand_calls(mod, v), "self.dataBuffer", "self.offset", "self._tempDataBuffer")
+                val = _sampled_concat(expand_calls(mod, v), "self.dataBuffer", "self.offset", "self._tempDataBuffer", mod=mod)
                 if val is None:
                     ctx.note("dowrite/rebase-content/sampled: the expression assigned to dataBuffer could not be evaluated: " + src(v)[:120])
                 else:
@@ -542,6 +641,8 @@ def _check(ctx):
                       "close / half-close / resume is reachable while bytes are still buffered",
                       witness=g.describe(path_under(g, facts, bad, srcs=starts)) if bad else "")
 
+    with ctx.section("stream evaluation"):
+        _stream(ctx, mod)
     with ctx.section("_concatenate"):
         # _concatenate: old-before-new order
         cf = next((n for n in mod.tree.body if isinstance(n, ast.FunctionDef) and n.name == "_concatenate"), None)
@@ -563,7 +664,7 @@ def _check(ctx):
             val = None
             if len(params) == 3:
                 call = ast.parse(f"_concatenate({params[0]}, {params[1]}, {params[2]})", mode="eval").body
-                val = _sampled_concat(expand_calls(mod, call), *params)
+                val = _sampled_concat(expand_calls(mod, call), *params, mod=mod)
             if ok or val is True:
                 ctx.ok("concatenate/order", QM + "_concatenate")
             elif val is None:
@@ -761,6 +862,11 @@ def _check(ctx):
 
 _DW = "FileDescriptor.doWrite"
 MUTANTS = [
+    Mutant("merge-keeps-the-unsent-tail-only-when-something-was-already-sent", ABS, '    return b"".join([memoryview(bObj)[offset:]] + bArray)\n',
+           "    tail = memoryview(bObj)[offset:] if offset else b\"\"\n    return b\"\".join([tail] + bArray)\n", expect_rule="concatenate/order"),
+    Mutant("merge-with-nothing-queued-returns-the-whole-old-buffer", ABS, '    return b"".join([memoryview(bObj)[offset:]] + bArray)\n',
+           "    if not bArray:\n        return bObj\n    return b\"\".join([memoryview(bObj)[offset:]] + bArray)\n", expect_rule="stream/bytes-sent-are-bytes-written"),
+    Mutant("merge-puts-queued-writes-before-the-unsent-tail", ABS, '    return b"".join([memoryview(bObj)[offset:]] + bArray)\n', "    return b\"\".join(bArray + [memoryview(bObj)[offset:]])\n", expect_rule="stream/"),
     Mutant("write-drops-len-update", ABS, "            self._tempDataBuffer.append(data)\n            self._tempDataLen += len(data)\n",
            "            self._tempDataBuffer.append(data)\n", expect_rule="buffer-len/coupled"),
     Mutant("dowrite-drops-len-reset", ABS, "            self._tempDataBuffer = []\n            self._tempDataLen = 0\n",
